@@ -43,7 +43,41 @@ TRow ==
                  /\ (~Null(r.v) /\ \A i \in 1..Len(sc) : ~Null(sc[i][4])) =>
                        Chk("Bellman", Bellman(p, r.v, { sc[i][4] : i \in 1..Len(sc) }), <<r.pcs, r.wtm, r.v, sc>>)
 
+(* C13: what the engine reports at a root covered by its on-demand table.  The row is the oracle
+   (validated by the same Bellman check), hmc the root's half-move clock. *)
+TTbSearch ==
+   /\ Ev("TbSearch") /\ UNCHANGED <<genOk, clsBoard>>
+   /\ LET r == Tr[l].row
+          p == FewPos(r.pcs, r.wtm, 0)
+          L == Legal(p)
+          sc == r.succ
+          v == r.v
+          h == Tr[l].hmc
+          n == DtmMoves(v)
+          fits == IF v > 0 THEN h + 2 * n - 1 <= 100 ELSE h + 2 * n <= 100     \* the exact mate completes before the 50-move limit
+          isMateScore == Tr[l].kind = "mate"
+          k == Tr[l].val
+          best == MvOfSeq(Tr[l].best)
+          bestVals == { sc[i][4] : i \in { j \in 1..Len(sc) : Mv(sc[j][1], sc[j][2], sc[j][3]) = best } }
+      IN /\ Chk("OracleRowConsistent", SuccOK(sc, L) /\ ~Null(v) /\ (\A i \in 1..Len(sc) : ~Null(sc[i][4]))
+                                        /\ Bellman(p, v, { sc[i][4] : i \in 1..Len(sc) }), r.pcs)
+         /\ Chk("ExactReport", Tr[l].bound = "", Tr[l].line)
+         /\ IF v = 0
+            THEN Chk("DrawIsNotMate", ~isMateScore, Tr[l].line)
+            ELSE IF fits
+            THEN Chk("ExactDistanceToMate", isMateScore /\ k = (IF v > 0 THEN n ELSE -n), <<"dtm", IF v > 0 THEN n ELSE -n, Tr[l].line>>)
+            ELSE Chk("NoMateBeyondFiftyMoveLimit",
+                     \* an announced mate is never shorter than the exact one; with three men no capture can reset
+                     \* the counter, so no mate may be announced at all (with four men a capture or a sacrifice can)
+                     isMateScore => /\ (k > 0) = (v > 0)
+                                    /\ (IF k > 0 THEN k >= n ELSE -k >= n)
+                                    /\ Len(r.pcs) > 3,
+                     <<"dtm", n, "hmc", h, Tr[l].line>>)
+         /\ Chk("BestMoveLegal", best \in L, Tr[l].best)
+         /\ (best \in L /\ v > 0 /\ fits) => Chk("BestMoveKeepsShortestMate", \A x \in bestVals : Back(x) = v, <<bestVals, v>>)
+         /\ (best \in L /\ v = 0) => Chk("BestMoveKeepsDraw", \A x \in bestVals : Back(x) = 0, <<bestVals>>)
+
 TInit == l = 1 /\ genOk = TRUE /\ clsBoard = [pc \in 1..12 |-> 0]
-TNext == TMeta \/ TTbGen \/ TTbAgain \/ TRow
+TNext == TMeta \/ TTbGen \/ TTbAgain \/ TRow \/ TTbSearch
 Accepted == TLCGet("stats").diameter - 1 = Len(Tr) \/ (PrintT(<<"REJECTED_AT", TLCGet("stats").diameter>>) /\ FALSE)
 =============================================================================
